@@ -112,7 +112,7 @@ func streamWF(c *Case) *WF {
 
 func init() {
 	Register(&Check{ID: "C17", Level: "exploration",
-		Rule: "one case = one producer/consumer pair connected by an {os:..} port (optionally with a predecessor, a successor, an ordinary second output of the producer, the streamed path in a directory that does not exist yet), n=1..3 streamed items with maxConcurrentTasks>=2n, payload 20..300 bytes against a simulated pipe capacity of 16..256 bytes (blocking opens, full-pipe back-pressure, EOF on last close), producer/consumer durations drawn independently, under one tape-chosen schedule; optionally followed by a second run in place. Oracle: consumer output = reference function of the producer's bytes; at RUN-RETURNED no regular file at the streamed path and no .fifo; consumer's audit Upstream names the producer; second run terminates and leaves consumer outputs (inode, mtime, bytes) unchanged. Round 5: a third of the cases in idle-machine mode (clock advances only when nothing can run, commands last >= 1 ms): a consumer whose command ends later than its producer's must name the producer as upstream. Round 6: Go code opening FIFOs is simulated; a quarter of the cases run the workflow a second time inside the same program after deleting the results. distinct = event-log hash; non-trivial = >=2 tasks, >=1 non-default choice",
+		Rule: "one case = one producer/consumer pair connected by an {os:..} port (optionally with a predecessor, a successor, an ordinary second output of the producer, the streamed path in a directory that does not exist yet), n=1..3 streamed items with maxConcurrentTasks>=2n, payload 20..300 bytes against a simulated pipe capacity of 16..256 bytes (blocking opens, full-pipe back-pressure, EOF on last close), producer/consumer durations drawn independently, under one tape-chosen schedule; optionally followed by a second run in place. Oracle: consumer output = reference function of the producer's bytes; at RUN-RETURNED no regular file at the streamed path and no .fifo; consumer's audit Upstream names the producer; second run terminates and leaves consumer outputs (inode, mtime, bytes) unchanged. Round 5: a third of the cases in idle-machine mode (clock advances only when nothing can run, commands last >= 1 ms): a consumer whose command ends later than its producer's must name the producer as upstream. Round 6: Go code opening FIFOs is simulated; a quarter of the cases run the workflow a second time inside the same program after deleting the results. Round 7: a joined in-port next to the streamed one; nothing left behind by the second run. distinct = event-log hash; non-trivial = >=2 tasks, >=1 non-default choice",
 		Run: func(c *Case) Verdict {
 			w := streamWF(c)
 			c.Sample = sample(w)
@@ -283,7 +283,7 @@ func init() {
 
 func init() {
 	Register(&Check{ID: "C18", Level: "exploration",
-		Rule: "one case = source (0..6 files; thorough: up to 140, beyond the default buffer) -> optional 1:1 process (durations vary upstream timing) -> StreamToSubStream -> process with a joined in-port {i:x|join:SEP} (optionally a second joined in-port fed by its own sub-stream, and a second occurrence of the placeholder with a path modifier basename / %.txt / s/a/b/), SEP in {space , : + '.o0,' 'txt+'}, arrival order optionally reversed, bufsize in {default,1,2,3} (so the sub-stream is often longer than the buffer), under one tape-chosen schedule. Oracle: exactly one start of the joining process; the member list the command received (split at SEP) names all files of the sub-stream in arrival order, each resolving from the task's working directory to the member file; the literal SEP-joined string appears in the executed script; audit Upstream keys = member paths (full recursive audit comparison); the modified occurrence has one entry per member, in order, each the modified member path; output bytes = reference. Round 6: two producers into one sub-stream; an output named after the joined port; a parameter port next to the joined port. distinct = event-log hash; non-trivial = >=2 tasks or >=2 members, >=1 non-default choice",
+		Rule: "one case = source (0..6 files; thorough: up to 140, beyond the default buffer) -> optional 1:1 process (durations vary upstream timing) -> StreamToSubStream -> process with a joined in-port {i:x|join:SEP} (optionally a second joined in-port fed by its own sub-stream, and a second occurrence of the placeholder with a path modifier basename / %.txt / s/a/b/), SEP in {space , : + '.o0,' 'txt+'}, arrival order optionally reversed, bufsize in {default,1,2,3} (so the sub-stream is often longer than the buffer), under one tape-chosen schedule. Oracle: exactly one start of the joining process; the member list the command received (split at SEP) names all files of the sub-stream in arrival order, each resolving from the task's working directory to the member file; the literal SEP-joined string appears in the executed script; audit Upstream keys = member paths (full recursive audit comparison); the modified occurrence has one entry per member, in order, each the modified member path; output bytes = reference. Round 6: two producers into one sub-stream; an output named after the joined port; a parameter port next to the joined port. Round 7: the carrier passes a tagging component. distinct = event-log hash; non-trivial = >=2 tasks or >=2 members, >=1 non-default choice",
 		Run: func(c *Case) Verdict {
 			t := c.Tape
 			w := &WF{Name: "wf", Sources: map[string]string{}}
@@ -996,7 +996,7 @@ func linesOf(b []byte) int { return strings.Count(string(b), "\n") }
 
 func init() {
 	Register(&Check{ID: "C19", Level: "exploration",
-		Rule: "one case = one bundled component in a small tape-generated harness workflow under one tape-chosen schedule (incl. map-iteration order, which decides the combinators' 'head' port): FileCombinator / ParamCombinator with 1..4 ports and stream lengths 0..4 (independent upstreams; or one shared upstream with length <= bufsize) feeding a consuming zip process - every element of the Cartesian product exactly once, ports aligned; IPSelectorSync with 1..4 aligned ports and a tape-chosen predicate mask - exactly the all-true tuples; FileSplitter (files of 0..7 lines, 1..3 lines per split) - recorded parts concatenate to the input, no part longer than the limit; Concatenator (inputs of a few bytes up to 2 MiB + remainder, around common copy-buffer sizes) - output = inputs in recorded arrival order, each followed by newline (also with GroupByTag: one output per group value, and with something already at the output path); FileGlobber over a generated tree vs an independent glob evaluation; FileToParamsReader / CommandToParams / FileSource / ParamSource - exactly the given items in order. Round 5: mixed tagged/untagged Concatenator inputs; FileGlobber emission order with 1-3 patterns; FileCombinator arrival order. Round 6: a FileSource path that names no file must not be left out silently. distinct = event-log hash; non-trivial = >=2 tasks, >=1 non-default choice",
+		Rule: "one case = one bundled component in a small tape-generated harness workflow under one tape-chosen schedule (incl. map-iteration order, which decides the combinators' 'head' port): FileCombinator / ParamCombinator with 1..4 ports and stream lengths 0..4 (independent upstreams; or one shared upstream with length <= bufsize) feeding a consuming zip process - every element of the Cartesian product exactly once, ports aligned; IPSelectorSync with 1..4 aligned ports and a tape-chosen predicate mask - exactly the all-true tuples; FileSplitter (files of 0..7 lines, 1..3 lines per split) - recorded parts concatenate to the input, no part longer than the limit; Concatenator (inputs of a few bytes up to 2 MiB + remainder, around common copy-buffer sizes) - output = inputs in recorded arrival order, each followed by newline (also with GroupByTag: one output per group value, and with something already at the output path); FileGlobber over a generated tree vs an independent glob evaluation; FileToParamsReader / CommandToParams / FileSource / ParamSource - exactly the given items in order. Round 5: mixed tagged/untagged Concatenator inputs; FileGlobber emission order with 1-3 patterns; FileCombinator arrival order. Round 6: a FileSource path that names no file must not be left out silently. Round 7: large splitter inputs; the globber's second round; a ParamCombinator whose ports share one source. distinct = event-log hash; non-trivial = >=2 tasks, >=1 non-default choice",
 		Run: func(c *Case) Verdict {
 			w, kind := componentCase(c)
 			c.Sample = kind + ": " + sample(w)
